@@ -16,7 +16,7 @@ def clean_model(m, with_schema=True):
     """projection used when comparing parsed models: names, rewrites, restrictions, conditions (expressions modulo outer whitespace)"""
     if not m:
         return None
-    return {"schema": m.get("schema") if with_schema else None,
+    return {"schema": (m.get("schema") or "") if with_schema else None,
             "types": [{"name": t["name"], "rels": [{"name": x["name"], "rw": x["rw"], "restr": x.get("restr") or []} for x in t.get("rels") or []]} for t in m.get("types") or []],
             "conds": [{"name": c["name"], "expr": c["expr"].strip(), "params": c.get("params") or []} for c in m.get("conds") or []]}
 
@@ -181,7 +181,228 @@ def run_c14(chk, binary, sc, tier):
     chk.assumptions += ["module and file names are single-line", "type definitions are permuted only for modular models (the statement limits that clause to them)"]
 
 
-RUNNERS = {"C02": run_c02, "C14": run_c14}
+# ------------------------------------------------------------------------------------------------ layouts: C01 C03 C09 C16
+
+LAYOUT_CFG = """SPECIFICATION Spec
+CONSTANTS
+  JobAt <- TJobAt
+  NumJobs <- TNumJobs
+CHECK_DEADLOCK FALSE
+"""
+LAYOUT_DEFS = 'Jobs == ndJsonDeserialize("layout_jobs.ndjson")\nTJobAt(i) == Jobs[i]\nTNumJobs == Len(Jobs)'
+BASE_STYLE = {"ws": " ", "ows": "", "eol": "\n", "ind": "  ", "blank": 0, "cmt": 0, "trail": "", "multi": False, "lead": "", "fin": "\n"}
+STYLE_SPACE = {"ws": [" ", "\t", "   "], "ows": ["", " "], "eol": ["\n", "\r\n"], "ind": ["  ", "\t", "", "      "], "blank": [0, 1, 2], "cmt": [0, 1],
+               "trail": ["", " # t", "   ", " # see #12 # more"], "multi": [False, True], "lead": ["", "\n", "  \n\n", "# hdr\n", "  # a\n  # b\n"], "fin": ["", "\n", "\n\n"]}
+NVIOL = 13
+
+
+def layout_jobs(tier, want_valid, want_invalid):
+    """The exploration schedule: which (document, violation, style, overrides) combinations TLC renders. Exhaustive over single
+    style dimensions and single overrides on a block of documents, seeded random mixtures beyond."""
+    import random
+    rng = random.Random(SEED)
+    scale = 1 if tier == "quick" else 6
+    jobs = []
+
+    def job(doc, viol=0, vsite=0, style=None, ov=()):
+        jobs.append({"id": "L%d" % len(jobs), "doc": doc, "viol": viol, "vsite": vsite, "style": dict(style or BASE_STYLE), "ov": [list(x) for x in ov]})
+
+    def rstyle():
+        return {k: rng.choice(v) for k, v in STYLE_SPACE.items()}
+
+    if want_valid:
+        for d in range(90 * scale):                                   # every document in the base style
+            job(d)
+        for k, vals in STYLE_SPACE.items():                           # every single style dimension on a block of documents
+            for v in vals:
+                if v != BASE_STYLE[k]:
+                    for d in range(27):
+                        job(d, style=dict(BASE_STYLE, **{k: v}))
+        for d in range(9 * scale):                                    # every single local override
+            for site in range(40):
+                for alt in range(9):
+                    job(d, ov=[(site, alt)])
+        for _ in range(1500 * scale):                                 # random mixtures: any style, up to two overrides
+            job(rng.randrange(0, 2000), style=rstyle(), ov=[(rng.randrange(0, 200), rng.randrange(0, 9)) for _ in range(rng.choice([0, 1, 2]))])
+    if want_invalid:
+        for v in range(1, NVIOL + 1):
+            for site in range(24 * scale):
+                for d in range(9):
+                    job(d, viol=v, vsite=site)
+            for _ in range(80 * scale):                               # the same violations under random layouts (comments / blank lines around the site)
+                job(rng.randrange(0, 500), viol=v, vsite=rng.randrange(0, 500), style=dict(rstyle(), multi=False))
+    return jobs
+
+
+def run_layouts(chk, binary, sc, tier, want_valid, want_invalid, chain):
+    jobs = layout_jobs(tier, want_valid, want_invalid)
+    jf = sc.path("layout_jobs.ndjson")
+    write_ndjson(jf, jobs)
+    res = run_tlc("DslLayoutMC", LAYOUT_CFG, sc, data_files={"layout_jobs.ndjson": jf}, defs=LAYOUT_DEFS, timeout=3000)
+    recs = {r["id"]: r for r in res.records}
+    if len(recs) != len(jobs):
+        raise Infra("TLC rendered %d of %d layout jobs\n%s" % (len(recs), len(jobs), res.tail[-1500:]))
+    inp, out = sc.path("lay.in.ndjson"), sc.path("lay.out.ndjson")
+    write_ndjson(inp, [{"id": r["id"], "text": r["text"], "modular": r["modular"]} for r in recs.values()])
+    run_harness(binary, ["dsl-parse", "-in", inp, "-out", out] + (["-chain"] if chain else []))
+    obs = {o["id"]: o for o in read_ndjson(out)}
+    if len(obs) != len(recs):
+        raise Infra("dsl-parse returned %d observations for %d documents" % (len(obs), len(recs)))
+    log("TLC rendered %d documents (%d states, %.0fs); real parser ran on all of them" % (len(recs), res.distinct, res.wall))
+    chk.cov.update(states=res.distinct, transitions=res.generated)
+    return jobs, recs, obs
+
+
+def expected_model(m):
+    return {"schema": m["schema"], "types": [{"name": t["name"], "rels": [{"name": x["name"], "rw": x["rw"], "restr": x["restr"]} for x in t["rels"]]} for t in m["types"]],
+            "conds": [{"name": c["name"], "expr": c["expr"].strip(), "params": c["params"]} for c in m["conds"]]}
+
+
+def run_c03(chk, binary, sc, tier):
+    jobs, recs, obs = run_layouts(chk, binary, sc, tier, True, False, False)
+    for j in jobs:
+        r, o = recs[j["id"]], obs[j["id"]]
+        rep = {"job": j, "text": r["text"], "written": r["m"], "observed": o["parse"]}
+        p = o["parse"]
+        if p.get("panic"):
+            chk.violation("parser panicked on a grammatical layout: %s" % p["panic"], rep)
+        elif not p["ok"]:
+            chk.violation("grammatical layout rejected: %s" % [(e["line"], e["col"], e["msg"][:80]) for e in p.get("errs") or []][:2], rep)
+        elif clean_model(p["m"]) != expected_model(r["m"]):
+            chk.violation("layout parses to a different model than the one written", dict(rep, parsed=clean_model(p["m"]), expected=expected_model(r["m"])))
+    texts = {recs[j["id"]]["text"] for j in jobs}
+    chk.cov.update(traces_validated_against_impl=len(jobs), evaluations=len(jobs), distinct_nontrivial=len(texts), documents=len(jobs),
+                   rule="documents = indexed family (3 name sets incl. keywords and dotted/dashed identifiers x model / deep model / module file x rewrite trees x position of the direct assignment x "
+                        "redundant parentheses x restriction and condition variants); layouts = every single style dimension, every single local override on a block of documents, "
+                        "seeded random mixtures of styles with up to two overrides; distinct by rendered text")
+    for j in jobs[:1] + jobs[-2:]:
+        chk.sample({"job": j, "text": recs[j["id"]]["text"]})
+    chk.assumptions += ["layout space = C03's feature list intersected with what lexer modes and the comment pre-pass admit (DESIGN 3.2): parameter lists single-line, trailing blanks are spaces, "
+                        "comment lines indented with spaces, a trailing comment needs the blank before '#'"]
+
+
+def run_c01(chk, binary, sc, tier):
+    jobs, recs, obs = run_layouts(chk, binary, sc, tier, True, False, True)
+    n = 0
+    for j in jobs:
+        r, o = recs[j["id"]], obs[j["id"]]
+        if r["modular"] or not o["parse"]["ok"]:
+            continue        # C01 is about documents accepted as a full model
+        n += 1
+        c = o["chain"]
+        rep = {"job": j, "text": r["text"], "chain": c}
+        if c["d1"].get("panic"):
+            chk.violation("printer panicked on the model the parser returned: %s" % c["d1"]["panic"], rep)
+        elif not c["d1"]["ok"]:
+            chk.violation("rendering the in-memory model returned by the DSL parser fails: %s" % c["d1"].get("err"), rep)
+        elif not c["j1"]["ok"]:
+            chk.violation("rendering through the JSON string API fails: %s" % (c["j1"].get("err") or c["j1"].get("panic")), rep)
+        elif not c["j_equal"]:
+            chk.violation("JSON-string API and in-memory API render different DSL for the same document", rep)
+        elif c.get("m2_err"):
+            chk.violation("the rendering does not parse: %s" % c["m2_err"], rep)
+        elif not c["m2_equal"]:
+            chk.violation("DSL -> model -> DSL -> model is not the identity", rep)
+        elif c.get("d2_err"):
+            chk.violation("rendering the re-parsed model fails: %s" % c["d2_err"], rep)
+        elif not c["m3_equal"] or not c["d3_equal"]:
+            # "rendering and parsing once more changes nothing further - the text is then byte-stable": stability is demanded
+            # from the second rendering on (the first one may still carry whitespace the pre-pass trims)
+            chk.violation("not stable: after rendering and parsing once more the %s still changes" % ("model" if not c["m3_equal"] else "text"), rep)
+    chk.cov.update(traces_validated_against_impl=n, evaluations=n * 6, distinct_nontrivial=len({recs[j["id"]]["text"] for j in jobs}), documents=n,
+                   rule="the accepted model documents of the C03 layout space (same schedule); per document: parse, render the SAME in-memory value, parse, render; and the JSON string chain; distinct by text")
+    for j in jobs[:1] + jobs[-1:]:
+        chk.sample({"job": j, "text": recs[j["id"]]["text"], "chain": {k: v for k, v in (obs[j["id"]].get("chain") or {}).items() if k in ("m2_equal", "d2_equal", "m3_equal", "d3_equal", "j_equal")}})
+
+
+def check_positions(chk, r, o, j, exact):
+    """C16, DSL half: bounds for every reported error; exact position for the listener-raised ones"""
+    lines = o["lines"]
+    p = o["parse"]
+    for e in p.get("errs") or []:
+        if e["line"] == -1 and e["col"] == -1:
+            continue        # not a positioned syntax error
+        chk.add("error_positions_checked")
+        if not (0 <= e["line"] < len(lines)):
+            chk.violation("error line %d outside the input (%d lines): %s" % (e["line"], len(lines), e["msg"][:80]), {"job": j, "text": r["text"], "error": e})
+            return
+        if not (0 <= e["col"] <= lines[e["line"]]):
+            chk.violation("error column %d beyond the end of line %d (length %d): %s" % (e["col"], e["line"], lines[e["line"]], e["msg"][:80]), {"job": j, "text": r["text"], "error": e})
+            return
+    if exact and r["errtag"] and not p["ok"]:
+        exp = [t for t in r["tagged"] if t[0] == r["errtag"]]
+        if not exp:
+            raise Infra("specification gave no position for tag %s in job %s" % (r["errtag"], j["id"]))
+        want = (exp[0][1], exp[0][2])
+        kinds = {"duplicate relation": "is already defined in", "duplicate condition": "is already defined in the model", "duplicate parameter": "is already defined in the condition",
+                 "extend in model": "extend can only be used in a modular model", "type extended twice": "is already extended in file"}
+        mine = [e for e in p.get("errs") or [] if kinds[r["viol"]] in e["msg"]]
+        chk.add("exact_positions_checked")
+        if not mine:
+            chk.drift.append({"job": j["id"], "viol": r["viol"], "note": "rejected, but not with the listener's message", "errors": [e["msg"][:60] for e in p.get("errs") or []][:2]})
+        elif want not in [(e["line"], e["col"]) for e in mine]:
+            chk.violation("%s: error reported at (%d,%d), the offending name stands at (%d,%d)" % (r["viol"], mine[0]["line"], mine[0]["col"], want[0], want[1]),
+                          {"job": j, "text": r["text"], "error": mine[0], "expected": want})
+
+
+def run_c09(chk, binary, sc, tier):
+    jobs, recs, obs = run_layouts(chk, binary, sc, tier, False, True, False)
+    kinds = {}
+    for j in jobs:
+        r, o = recs[j["id"]], obs[j["id"]]
+        p = o["parse"]
+        kinds[r["viol"]] = kinds.get(r["viol"], 0) + 1
+        rep = {"job": j, "violation": r["viol"], "text": r["text"], "observed": p}
+        if p.get("panic"):
+            chk.violation("parser panicked on a structurally invalid document (%s): %s" % (r["viol"], p["panic"]), rep)
+        elif p["ok"]:
+            chk.violation("structurally invalid document accepted (%s)" % r["viol"], rep)
+        elif p.get("nilerr"):
+            chk.violation("rejected, but a model was returned together with the error (%s)" % r["viol"], rep)
+        elif not p.get("errs"):
+            chk.violation("rejected without an error value (%s)" % r["viol"], rep)
+    chk.cov.update(traces_validated_against_impl=len(jobs), evaluations=len(jobs), distinct_nontrivial=len({recs[j["id"]]["text"] for j in jobs}), per_violation=kinds,
+                   rule="13 structural violations x injection sites (relation index, operand position, nesting depth 0-2, operator pair, rewrite shape of the duplicate, parameter index) x documents "
+                        "(3 name sets, model / deep / module) + the same under random layouts; distinct by text")
+    for j in jobs[:1] + jobs[len(jobs) // 2:len(jobs) // 2 + 1]:
+        chk.sample({"job": j, "violation": recs[j["id"]]["viol"], "text": recs[j["id"]]["text"]})
+
+
+def run_c16(chk, binary, sc, tier):
+    jobs, recs, obs = run_layouts(chk, binary, sc, tier, False, True, False)
+    for j in jobs:
+        check_positions(chk, recs[j["id"]], obs[j["id"]], j, True)
+    # rejected byte strings beyond the catalogue: truncations and single-character edits of valid documents (bounds only)
+    import random
+    rng = random.Random(SEED)
+    vjobs, vrecs, _ = run_layouts(chk, binary, sc, "quick", True, False, False) if tier == "thorough" else (None, None, None)
+    texts = [recs[j["id"]]["text"] for j in jobs[:400]]
+    muts = []
+    for t in texts:
+        for _ in range(3):
+            k = rng.randrange(0, len(t))
+            how = rng.randrange(0, 4)
+            m = t[:k] if how == 0 else t[:k] + rng.choice("[]():#,*\n \t{}x") + t[k:] if how == 1 else t[:k] + t[k + 1:] if how == 2 else t[:k] + t[k:k + 5][::-1] + t[k + 5:]
+            muts.append({"id": "M%d" % len(muts), "text": m, "modular": False})
+    inp, out = sc.path("mut.in.ndjson"), sc.path("mut.out.ndjson")
+    write_ndjson(inp, muts)
+    run_harness(binary, ["dsl-parse", "-in", inp, "-out", out])
+    for m, o in zip(muts, read_ndjson(out)):
+        check_positions(chk, {"text": m["text"], "errtag": None, "tagged": [], "viol": ""}, o, {"id": m["id"]}, False)
+    # merge half of the property: same machinery as C07 with the C16 judge
+    import chk_merge
+    chk_merge.run_into(chk, "C16", binary, sc, tier)
+    chk.cov.update(traces_validated_against_impl=chk.cov.get("exact_positions_checked", 0) + chk.cov.get("merge_positions_checked", 0),
+                   evaluations=chk.cov.get("error_positions_checked", 0) + chk.cov.get("merge_positions_checked", 0),
+                   distinct_nontrivial=len({recs[j["id"]]["text"] for j in jobs}) + len(muts),
+                   rule="bounds: every positioned error of every rejected catalogue document and of %d seeded truncations / one-character edits; exact: the listener-raised errors of the catalogue "
+                        "(duplicate relation / condition / parameter, extend in model, type extended twice) against the position of the offending name lexeme computed by the layout "
+                        "specification; merge: every conflict of the Merge.tla universe against the line of the conflicting declaration; distinct by text" % len(muts))
+    for j in [x for x in jobs if recs[x["id"]]["errtag"]][:2]:
+        chk.sample({"job": j, "violation": recs[j["id"]]["viol"], "text": recs[j["id"]]["text"], "expected_position": [t for t in recs[j["id"]]["tagged"] if t[0] == recs[j["id"]]["errtag"]]})
+
+
+RUNNERS = {"C01": run_c01, "C02": run_c02, "C03": run_c03, "C09": run_c09, "C14": run_c14, "C16": run_c16}
 
 
 def run(pid, tier):
